@@ -1,0 +1,23 @@
+//go:build verif
+
+package mempool
+
+// Add-only accessors for the verification harness (/verif, property C23).
+// Compiled only with -tags verif; no behaviour of the package changes.
+
+import (
+	"github.com/33cn/chain33/queue"
+	"github.com/33cn/chain33/types"
+)
+
+// VerifGetTxList is getTxList (the body of the EventTxList handler).
+func (mem *Mempool) VerifGetTxList(l *types.TxHashList) []*types.Transaction {
+	return mem.getTxList(l)
+}
+
+// VerifEventTxList runs the EventTxList handler on a message; the reply is
+// delivered on the message's reply channel.
+func (mem *Mempool) VerifEventTxList(msg *queue.Message) { mem.eventTxList(msg) }
+
+// VerifEventGetMempool runs the EventGetMempool handler on a message.
+func (mem *Mempool) VerifEventGetMempool(msg *queue.Message) { mem.eventGetMempool(msg) }
